@@ -40,6 +40,14 @@ def cases(tier):
         out.append(("ASG %s %s" % (a, b), "fn f(v: %s)\n{\n\tvar x: %s;\n\tx = v;\n}\n" % (b, a), None))
         out.append(("INI %s %s" % (a, b), "fn f(v: %s)\n{\n\tvar x: %s = v;\n}\n" % (b, a), None))
         out.append(("RET %s %s" % (a, b), "fn f(v: %s) -> %s\n{\n\treturn: v\n}\n" % (b, a), None))
+        # the value of a member in a structure literal, of an array element, of a constant
+        out.append(("MEM %s %s" % (a, b), "struct H\n{\n\tm: %s,\n}\nfn f(v: %s)\n{\n\tvar h = H { m: v };\n}\n" % (a, b), None))
+        out.append(("ELT %s %s" % (a, b), "fn f(v: %s, w: %s)\n{\n\tvar x = [w, v];\n}\n" % (b, a), None))
+    for n, m in ((2, 3), (3, 2), (0, 1), (1, 0)):
+        out.append(("LEN %d %d" % (n, m), "struct H\n{\n\tm: [%d]i32,\n}\nfn f()\n{\n\tvar h = H { m: [%s] };\n}\n" % (n, ", ".join(["1"] * m)), None))
+        out.append(("LEN %d %d" % (n + 10, m + 10), "fn f()\n{\n\tvar a: [%d]i32 = [%s];\n}\n" % (n, ", ".join(["1"] * m)), None))
+    for a in PRIMS:
+        out.append(("MEMOK %s" % a, "struct H\n{\n\tm: %s,\n}\nfn f(v: %s)\n{\n\tvar h = H { m: v };\n}\n" % (a, a), "OK"))
     return out
 
 
@@ -96,7 +104,7 @@ def run(tier):
         return ck.finish()
     cs = cases(tier) + nested(600 if tier == "quick" else 60000, ck.seed)
     impl = C.run_harness("front", [(c[0], c[1]) for c in cs], ck.work + "/gate", timeout=1800)
-    model = C.run_model([("resolve", c[0], c[2]) for c in cs if c[2]], ck.work + "/gate")
+    model = C.run_model([("resolve", c[0], c[2]) for c in cs if c[2] and c[2] != "OK"], ck.work + "/gate")
     stats = collections.Counter(); bad = 0
     for cid, src, sx in cs:
         f = impl.get(cid, ["missing"])
@@ -105,6 +113,11 @@ def run(tier):
         accepted = f[0].startswith("ok")
         codes = [] if accepted else [x for x in f[0][len("err codes="):].strip("[]").split(",") if x]
         kind = cid.split(" ")[0]
+        if sx == "OK":
+            stats[kind + (":accepted" if accepted else ":rejected")] += 1
+            if not accepted:
+                bad += 1; ck.violation("well-typed-rejected:" + kind, "%s is rejected (%s)" % (cid, codes), src)
+            continue
         if sx is None:
             # differing types on the two sides of an assignment / initialisation / return: must be rejected with an E5xx (or E33x for returns)
             stats[kind + (":accepted" if accepted else ":rejected")] += 1
@@ -139,7 +152,7 @@ def run(tier):
         ck.violation("tie-broken:proof", "Props/C07.v no longer checks", getattr(ck, "proof_output", "")[-2000:])
     ck.coverage.update(
         evaluations=len(cs) + ne, distinct_nontrivial=len(cs), exhaustive=True,
-        rule="exhaustive over primitive type pairs: every binary operator x 13 x 13 operand types, every comparison x 13 x 13, unary operators x 13, casts 13 x 12, pointer comparisons, pointer-advance offsets x 13, call argument types 13 x 13 and wrong arity, and assignment / initialisation / return with differing types 13 x 12 each: real verdict and codes vs the extracted gate model (accept iff the gate accepts; the gate's code or another E5xx); plus well-typed generated programs (must be accepted and behave as the interpreter says)",
+        rule="exhaustive over primitive type pairs: every binary operator x 13 x 13 operand types, every comparison x 13 x 13, unary operators x 13, casts 13 x 12, pointer comparisons, pointer-advance offsets x 13, call argument types 13 x 13 and wrong arity, and assignment / initialisation / return / structure literal member / array element with differing types 13 x 12 each, array literals of the wrong length (as member and as initialiser): real verdict and codes vs the extracted gate model (accept iff the gate accepts; the gate's code or another E5xx); plus well-typed generated programs (must be accepted and behave as the interpreter says)",
         stats={k: v for k, v in sorted(stats.items())}, problems=bad,
         samples=[dict(case=cs[1][0], source=cs[1][1], real=impl.get(cs[1][0], ["?"])[0], model=model.get(cs[1][0]))])
     return ck.finish()
